@@ -2,6 +2,8 @@
 C01 — property theorems (statements only; helper lemmas live in `Proofs/`).
 -/
 import Mahotas.Proofs.C01
+import Mahotas.Proofs.C01Scatter
+import Mahotas.Proofs.C01Star
 namespace Mahotas.C01
 open Mahotas
 
@@ -13,6 +15,46 @@ def AdmissibleElem (dt : DT) (sup : List (List Int × Int)) : Prop :=
 
 /-- every pixel value is representable in `dt` (bool: 0/1) -/
 def ImageInRange (dt : DT) (A : Img Int) : Prop := ∀ q, dt.InRange (A.getD q 0)
+
+/-- every offset of the support is an offset `k − c` of the element box `bshape`
+    (true of every `support bshape bc compress`, see `C01_support_offsets_in_box`) -/
+def OffsetsInBox (bshape : List Nat) (sup : List (List Int × Int)) : Prop :=
+  ∀ kh ∈ sup, kh.1 ∈ boxOffsets bshape
+
+/-- the dtypes of the statement: an integer dtype, or bool -/
+def DTypeOK (dt : DT) : Prop := dt.WF ∨ dt = dtBool
+
+/-- `(p, kh)` is a scatter pair for pixel `q`: source pixel `p` of the image, not the dtype minimum,
+    member entry `kh` of the support, and the clamped target `clamp(p + k)` is `q` -/
+def Reaches (dt : DT) (A : Img Int) (sup : List (List Int × Int)) (q p : List Int)
+    (kh : List Int × Int) : Prop :=
+  inside A.shape p = true ∧ kh ∈ sup ∧ A.getD p dt.lo ≠ dt.lo ∧ clampPos A.shape (addPos p kh.1) = q
+
+theorem getD_lo_inRange (dt : DT) (A : Img Int) (hlh : dt.lo ≤ dt.hi) (hA : ImageInRange dt A)
+    (p : List Int) : dt.InRange (A.getD p dt.lo) := by
+  have h := hA p
+  unfold Img.getD at h ⊢
+  split
+  · next hin =>
+    simp only [hin, if_true] at h
+    rw [Array.getD_eq_getD_getElem?] at h ⊢
+    cases hx : A.data[ravelI A.shape p]? with
+    | none => simp only [Option.getD_none]; exact ⟨Int.le_refl _, hlh⟩
+    | some x => rw [hx] at h; exact h
+  · exact ⟨Int.le_refl _, hlh⟩
+
+theorem valOK_of (dt : DT) (hdt : DTypeOK dt) (A : Img Int) (sup : List (List Int × Int))
+    (hA : ImageInRange dt A) (hB : AdmissibleElem dt sup) : ValOK dt A sup := by
+  rcases hdt with wf | rfl
+  · apply valOK_wf dt wf A sup
+    · intro p _
+      exact getD_lo_inRange dt A (by have := wf.hi_pos; rcases wf.lo_cases with h | h <;> omega) hA p
+    · intro kh hkh; exact ⟨(hB kh hkh).1, (hB kh hkh).2.1⟩
+  · apply valOK_bool A sup
+    · intro p _
+      have := hA p
+      simp only [DT.InRange, dtBool] at this; omega
+    · intro kh hkh; exact (hB kh hkh).2.2 rfl
 
 end Mahotas.C01
 
@@ -84,6 +126,104 @@ theorem C01_border_is_edge_replication (cc len : Int) (h : 0 < len) :
     ∀ m r, fixOffset m cc len = some r → 0 ≤ r ∧ r < len :=
   ⟨fixOffset_nearest cc len h, fun m r => fixOffset_range m cc len h r⟩
 
+/-- every offset produced by `support` (the list the driver feeds to the kernels) lies in the element box
+    and has the rank of the element. -/
+theorem C01_support_offsets_in_box (bshape : List Nat) (bc : Array Int) (compress : Bool) :
+    OffsetsInBox bshape (support bshape bc compress) ∧
+    ∀ kh ∈ support bshape bc compress, kh.1.length = bshape.length :=
+  ⟨fun kh h => support_mem_boxOffsets bshape bc compress kh h,
+   fun kh h => boxOffsets_length bshape kh.1 (support_mem_boxOffsets bshape bc compress kh h)⟩
+
+/-- **C01-T3 (the scatter kernel is a pointwise maximum).** The model of the generic `dilate` kernel
+walks over the pixels in scan order and, for every pixel `p` that is not the dtype minimum and every
+entry `(k, h)` of the element, raises the output cell `clamp(p + k)` to `dilate_add(A p, h)` if that is
+larger (a fold over an array). For every image of every rank and shape with positive axis lengths, every
+support whose offsets have the rank of the image, and every flat index `i` of the output, the value `v`
+left in cell `i` is the maximum of the dtype minimum and of `dilate_add(A p, h)` over all scatter
+pairs `(p, (k, h))` for the pixel with index `i` — stated without reference to any order: `v` is an upper bound of `lo`
+and of all those values, and it is `lo` or one of them. The output has as many cells as the image. -/
+theorem C01_dilate_scatter_characterisation (dt : DT) (A : Img Int) (sup : List (List Int × Int))
+    (hs : ∀ d ∈ A.shape, 0 < d) (hlen : ∀ kh ∈ sup, kh.1.length = A.shape.length)
+    (i : Nat) (hi : i < A.size) :
+    let v := (dilateModel dt A sup).getD i dt.lo
+    let q := unravelI A.shape i
+    (dilateModel dt A sup).size = A.size ∧ dt.lo ≤ v ∧
+    (∀ p kh, Reaches dt A sup q p kh → dilateAdd dt (A.getD p dt.lo) kh.2 ≤ v) ∧
+    (v = dt.lo ∨ ∃ p kh, Reaches dt A sup q p kh ∧ v = dilateAdd dt (A.getD p dt.lo) kh.2) := by
+  intro v q
+  have hq : inside A.shape q = true := inside_unravelI A.shape i hi
+  have hiq : ravelI A.shape q = i := ravelI_unravelI A.shape i hi
+  obtain ⟨hsz, hv⟩ := dilateModel_getD dt A hs sup i hi
+  have hv' : v = listMax dt.lo (scatCands dt A sup i) := hv
+  refine ⟨hsz, ?_, ?_, ?_⟩
+  · rw [hv']; exact le_listMax_init _ _
+  · rintro p kh ⟨hp, hkh, hne, ht⟩
+    rw [hv']
+    apply le_listMax_of_mem
+    rw [mem_scatCands]
+    refine ⟨p, hp, hne, kh, hkh, ?_, rfl⟩
+    rw [← hiq, target_eq_iff A.shape hs p kh.1 q hp (hlen kh hkh) hq]; exact ht
+  · rcases listMax_mem dt.lo (scatCands dt A sup i) with h | h
+    · left; rw [hv']; exact h
+    · right
+      rw [mem_scatCands] at h
+      obtain ⟨p, hp, hne, kh, hkh, ht, hx⟩ := h
+      refine ⟨p, kh, ⟨hp, hkh, hne, ?_⟩, by rw [hv']; exact hx⟩
+      rw [← hiq, target_eq_iff A.shape hs p kh.1 q hp (hlen kh hkh) hq] at ht; exact ht
+
+/-- **C01-T3b (dilation at pixels whose neighbourhood lies inside the image).** For every integer dtype
+and bool, every image of every rank and shape with positive axis lengths, every admissible structuring
+element of the rank of the image (flat or not, regular or not, odd or even sized) and every pixel `q`
+for which the element box placed at `q` and its reflection both lie inside the image, the cell of `q`
+in the model of the generic `dilate` kernel (scatter with clamp) equals the lattice definition
+(gather): the maximum over the members of the element of `saturate(A[q − k] + h)`, the dtype minimum being absorbing. -/
+theorem C01_dilate_eq_spec_boxInterior (dt : DT) (hdt : DTypeOK dt) (A : Img Int) (bshape : List Nat)
+    (sup : List (List Int × Int)) (q : List Int)
+    (hs : ∀ d ∈ A.shape, 0 < d) (hl : bshape.length = A.shape.length) (hbox : OffsetsInBox bshape sup)
+    (hA : ImageInRange dt A) (hB : AdmissibleElem dt sup)
+    (hq : inside A.shape q = true) (hb : boxInterior A.shape bshape q = true) :
+    (dilateModel dt A sup).getD (ravelI A.shape q) dt.lo = dilateSpecAt dt A sup q := by
+  apply scatter_eq_gather_at dt A sup q hs hq
+  · intro kh hkh; rw [boxOffsets_length bshape kh.1 (hbox kh hkh), hl]
+  · exact valOK_of dt hdt A sup hA hB
+  · intro p kh hp hkh hm ht
+    obtain ⟨i, hi, hk⟩ := (mem_boxOffsets bshape kh.1).mp (hbox kh hkh)
+    refine ⟨kh, hkh, hm, rfl, ?_⟩
+    rw [hk] at ht ⊢
+    exact boxInterior_scatter A.shape bshape q p i hl hb hp hq hi ht
+  · intro kh hkh hm
+    obtain ⟨i, hi, hk⟩ := (mem_boxOffsets bshape kh.1).mp (hbox kh hkh)
+    refine ⟨kh, hkh, hm, rfl, ?_⟩
+    rw [hk]
+    exact boxInterior_gather A.shape bshape q i hl hb hq hi
+
+/-- **C01-T4 (regular elements: dilation at every pixel).** If the members of the element form a
+coordinate-wise star-shaped set (with `k` every offset between `0` and `k` is a member — the executable
+test `starShaped` of the driver; centred crosses, boxes and disks pass it, see `C01_se_tables`) and
+all members have the same height (`flatHeights`), then for every integer dtype and bool, every image of
+every rank and shape with positive axis lengths and **every** pixel `q` of the image — border pixels
+included, where the kernel's scatter is clamped — the model of the generic `dilate` kernel equals the
+lattice definition (gather with clamp). -/
+theorem C01_dilate_regular_everywhere (dt : DT) (hdt : DTypeOK dt) (A : Img Int) (bshape : List Nat)
+    (sup : List (List Int × Int)) (q : List Int)
+    (hs : ∀ d ∈ A.shape, 0 < d) (hl : bshape.length = A.shape.length) (hbox : OffsetsInBox bshape sup)
+    (hA : ImageInRange dt A) (hB : AdmissibleElem dt sup)
+    (hstar : starShaped bshape ((sup.filter (isMember dt)).map (·.1)) = true)
+    (hflat : flatHeights ((sup.filter (isMember dt)).map (·.2)) = true)
+    (hq : inside A.shape q = true) :
+    (dilateModel dt A sup).getD (ravelI A.shape q) dt.lo = dilateSpecAt dt A sup q := by
+  have hlen : ∀ kh ∈ sup, kh.1.length = A.shape.length := by
+    intro kh hkh; rw [boxOffsets_length bshape kh.1 (hbox kh hkh), hl]
+  apply scatter_eq_gather_at dt A sup q hs hq hlen (valOK_of dt hdt A sup hA hB)
+  · intro p kh hp hkh hm ht
+    obtain ⟨hbt, hg⟩ := star_scatter A.shape p q kh.1 hp hq (hlen kh hkh) ht
+    obtain ⟨kh', hkh', hm', hh, hk'⟩ := star_exchange dt bshape sup hbox hstar hflat kh hkh hm _ hbt
+    exact ⟨kh', hkh', hm', hh, by rw [hk']; exact hg⟩
+  · intro kh hkh hm
+    obtain ⟨hbt, hg⟩ := star_gather A.shape q kh.1 hq (hlen kh hkh)
+    obtain ⟨kh', hkh', hm', hh, hk'⟩ := star_exchange dt bshape sup hbox hstar hflat kh hkh hm _ hbt
+    exact ⟨kh', hkh', hm', hh, by rw [hk']; exact hg⟩
+
 /-! non-vacuity: a 2×3 int8 image with negative values and a non-flat, even-sized element
     meets every hypothesis of `C01_erode_eq_spec`. -/
 example :
@@ -92,3 +232,29 @@ example :
     (∀ d ∈ A.shape, 0 < d) ∧ (sup.length = 4) ∧
       (allPos A.shape).map (erodeAt (dtI 8) A sup) = [-128, -128, 5, -128, -128, 5] := by
   decide
+
+/-! non-vacuity of T3/T3b: a 3×4 int8 image, an even-sized non-flat irregular element with an absent entry.
+    The two box-interior pixels agree with the gather definition; border pixels (where the statement
+    is silent) differ — the box-interior hypothesis is not idle. -/
+example :
+    let A : Img Int := { shape := [3, 4], data := #[-128, 5, 127, -3, 0, 7, -128, 100, 1, 2, 3, 4] }
+    let sup := support [2, 2] #[0, 3, -128, 1] false
+    (allPos A.shape).map (boxInterior A.shape [2, 2]) =
+      [false, false, false, false, false, true, true, false, false, false, false, false] ∧
+    (dilateModel (dtI 8) A sup).toList = [7, 127, 127, 103, 4, 8, 6, 101, 2, 3, 4, 5] ∧
+    (allPos A.shape).map (dilateSpecAt (dtI 8) A sup) = [7, 10, 127, 103, 4, 8, 6, 101, 4, 5, 6, 7] := by
+  decide +kernel
+
+/-! non-vacuity of T4: the 1×3 box passes the executable regularity test and scatter = gather at
+    every pixel; the one-sided element `{+1}` fails the test and scatter ≠ gather at the border. -/
+example :
+    let A : Img Int := { shape := [1, 3], data := #[5, 0, 0] }
+    let box := support [1, 3] #[1, 1, 1] false
+    let shift := support [1, 3] #[0, 0, 1] false
+    let mem := fun (s : List (List Int × Int)) => s.filter (isMember (dtU 8))
+    starShaped [1, 3] ((mem box).map (·.1)) = true ∧ flatHeights ((mem box).map (·.2)) = true ∧
+    (dilateModel (dtU 8) A box).toList = (allPos A.shape).map (dilateSpecAt (dtU 8) A box) ∧
+    starShaped [1, 3] ((mem shift).map (·.1)) = false ∧
+    (dilateModel (dtU 8) A shift).toList = [0, 6, 0] ∧
+    (allPos A.shape).map (dilateSpecAt (dtU 8) A shift) = [6, 6, 0] := by
+  decide +kernel
